@@ -12,8 +12,30 @@ import (
 	"strings"
 )
 
+// Mark remembers where a length-like field sits in the encoding (for targeted mutations).
+type Mark struct {
+	Off  int
+	Kind string // count | mode | bytes
+	Len  int    // bytes: length of the data
+}
+
 // W builds a TL value.
-type W struct{ B []byte }
+type W struct {
+	B     []byte
+	Marks []Mark
+}
+
+// Count writes a vector length.
+func (w *W) Count(n int) *W {
+	w.Marks = append(w.Marks, Mark{Off: len(w.B), Kind: "count", Len: n})
+	return w.U32(uint32(n))
+}
+
+// Mode writes a flags field (mode:#).
+func (w *W) Mode(m uint32) *W {
+	w.Marks = append(w.Marks, Mark{Off: len(w.B), Kind: "mode"})
+	return w.U32(m)
+}
 
 func (w *W) U32(v uint32) *W  { w.B = binary.LittleEndian.AppendUint32(w.B, v); return w }
 func (w *W) U64(v uint64) *W  { w.B = binary.LittleEndian.AppendUint64(w.B, v); return w }
@@ -34,6 +56,7 @@ func pad32(b []byte) []byte {
 
 // Bytes writes a TL bytes/string value: 1-byte length (<254) or 0xFE + 3-byte length, data, padding to 4.
 func (w *W) Bytes(b []byte) *W {
+	w.Marks = append(w.Marks, Mark{Off: len(w.B), Kind: "bytes", Len: len(b)})
 	n := len(b)
 	total := 0
 	if n < 254 {
